@@ -197,8 +197,11 @@ def run(res, rng, tier):
                 res.failures.append(dict(sig=f[0], what=f[1], case=dict(w, rd=c['rd'], muts=[m], full=False, reseek=c.get('reseek', False)),
                                          observed=ob, expected='an error, or exactly the original data; a clean end only at a block (and record) boundary with HasEOF false'))
             if c.get('full') and not (m[0] == 1 and m[1] in hdrpos) and ob['e'] != 2:
-                if rng.random() < ((0.5 if m[0] == 0 else 0.04) if tier == 'quick' else 1.0):
+                if rng.random() < ((0.5 if m[0] == 0 else 0.04) if tier == 'quick' else (1.0 if m[0] == 0 else 0.2)):
                     terms.append((w, m, ob, coq_term(stream, m, ob)))
+    cap = 450 if tier == 'quick' else 4000
+    if len(terms) > cap:
+        terms = rng.sample(terms, cap)
     t0 = time.time()
     bad, err = core.coq_mismatches(HEADER, 'ccase', 'ccase_agree', [t[3] for t in terms], 'c10', shard=400)
     res.notes.append('coq evaluation %.1fs for %d cases' % (time.time() - t0, len(terms)))
